@@ -49,6 +49,7 @@ type Sys struct {
 	dead  bool
 	names []string
 	off   bool // reference model: governance switched the module off (set when the parameter-change proposal is accepted)
+	hookOff bool // reference model: governance switched the (unused) EVM-hook parameter off
 }
 
 var denoms = []string{"acoin", "bcoin", "ccoin"}
@@ -330,11 +331,12 @@ func (s *Sys) Apply(op string) (obs, class string, viols []bfs.Viol) {
 			content = aggregatetypes.NewToggleTokenRelayProposal("t", "d", tk)
 		case "update":
 			content = aggregatetypes.NewUpdateTokenPairERC20Proposal("t", "d", s.addr(f[2]).Hex(), s.addr(f[3]).Hex())
-		case "enable":
+		case "enable", "hook":
+			pkey := map[string]string{"enable": "EnableAggregate", "hook": "EnableEVMHook"}[f[1]]
 			// parameter change through the real parameter-change proposal handler addressing the raw key, as governance does
 			var perr error
 			s.w.Do(s.c, func(ctx sdk.Context) {
-				prop := paramproposal.NewParameterChangeProposal("t", "d", []paramproposal.ParamChange{{Subspace: aggregatetypes.ModuleName, Key: "EnableAggregate", Value: f[2]}})
+				prop := paramproposal.NewParameterChangeProposal("t", "d", []paramproposal.ParamChange{{Subspace: aggregatetypes.ModuleName, Key: pkey, Value: f[2]}})
 				cctx, write := ctx.CacheContext()
 				if perr = params.NewParamChangeProposalHandler(s.c.App.ParamsKeeper)(cctx, prop); perr == nil {
 					write()
@@ -342,10 +344,12 @@ func (s *Sys) Apply(op string) (obs, class string, viols []bfs.Viol) {
 			})
 			if perr != nil {
 				add("C11", "well-formed-parameter-change-refused", perr.Error())
-			} else {
+			} else if f[1] == "enable" {
 				s.off = f[2] == "false"
+			} else {
+				s.hookOff = f[2] == "false" // the EVM-hook switch alone neither disables nor enables conversions
 			}
-			return "params", "params EnableAggregate=" + f[2], append(viols, s.registryCheck(add)...)
+			return "params", "params " + pkey + "=" + f[2], append(viols, s.registryCheck(add)...)
 		}
 		if err := content.ValidateBasic(); err != nil {
 			return "invalid-basic", "gov " + f[1] + " refused stateless", nil
@@ -625,6 +629,23 @@ func (s *Sys) registryCheck(add addFn) []bfs.Viol {
 		}
 		seenErc[strings.ToLower(p.ERC20Address)] = id
 	}
+	// the public look-ups (keeper id look-up and the gRPC queries clients use) find every pair by its contract and by each denomination
+	ctx := s.c.ReadCtx()
+	k := s.c.App.AggregateKeeper
+	for id, p := range pairs {
+		for _, token := range append([]string{p.ERC20Address}, p.Denoms...) {
+			if got := k.GetTokenPairID(ctx, token); string(got) != id {
+				addv("pair-not-found-by-id-look-up", fmt.Sprintf("pair %s %v: GetTokenPairID(%s) = %x", p.ERC20Address, p.Denoms, token, got))
+			}
+			res, err := k.TokenPair(sdk.WrapSDKContext(ctx), &aggregatetypes.QueryTokenPairRequest{Token: token})
+			if err != nil || res.TokenPair.ERC20Address != p.ERC20Address || fmt.Sprint(res.TokenPair.Denoms) != fmt.Sprint(p.Denoms) {
+				addv("pair-not-found-by-query", fmt.Sprintf("pair %s %v: query TokenPair(%s) answers %v %v", p.ERC20Address, p.Denoms, token, res, err))
+			}
+		}
+	}
+	if res, err := k.TokenPairs(sdk.WrapSDKContext(ctx), &aggregatetypes.QueryTokenPairsRequest{}); err != nil || len(res.TokenPairs) != len(pairs) {
+		addv("pairs-query-does-not-list-every-pair", fmt.Sprintf("query TokenPairs answers %v %v, the store holds %d pairs", res, err, len(pairs)))
+	}
 	for a, id := range byErc {
 		p, ok := pairs[id]
 		if !ok {
@@ -666,7 +687,7 @@ func (s *Sys) Key() string {
 		}
 	}
 	p := s.c.App.AggregateKeeper.GetParams(s.c.ReadCtx())
-	return fmt.Sprintf("%s|en=%v/%v|dead=%s|%s", s.observe(), p.EnableAggregate, !s.off, destroyed, tmhash.Sum([]byte(strings.Join(ks, ";"))))
+	return fmt.Sprintf("%s|en=%v/%v/%v|dead=%s|%s", s.observe(), p.EnableAggregate, !s.off, !s.hookOff, destroyed, tmhash.Sum([]byte(strings.Join(ks, ";"))))
 }
 
 func (s *Sys) Check() []bfs.Viol {
